@@ -38,14 +38,36 @@ theorem gen_needsDupCheck (p u c e : Bool) :
     Gsu.Gen.Check.needsDupCheck p u c e = (p || (u && !c && !e)) := by
   cases p <;> cases u <;> cases c <;> cases e <;> rfl
 
+/-- the generated `uniqueIndexEmpty` of tran.go: a (composite) unique value is exempt from the
+duplicate check only when ALL its fields are empty — exactly the case in which `ixkey.Spec.Key`
+makes the entry unique by appending the key fields -/
+theorem gen_uniqueIndexEmpty (es : List Bool) :
+    Gsu.Gen.Check.uniqueIndexEmpty es = es.all id := by
+  induction es with
+  | nil => rfl
+  | cons e r ih => cases e <;> simp [Gsu.Gen.Check.uniqueIndexEmpty, ih]
+
+/-- a unique index (not containing a key) whose value has at least one non-empty field is
+duplicate-checked on insert, and on update when its key changes -/
+theorem checked_partly_empty (x : IxIn) (hu : x.modeU = true) (hc : x.containsKey = false)
+    (hne : false ∈ x.fieldsEmpty) :
+    (x.emptyKey = false → checked false x = true) ∧ (x.changed = true → checked true x = true) := by
+  have : Gsu.Gen.Check.uniqueIndexEmpty x.fieldsEmpty = false := by
+    rw [gen_uniqueIndexEmpty]
+    cases h : x.fieldsEmpty.all id with
+    | false => rfl
+    | true => rw [List.all_eq_true] at h; have := h false hne; simp at this
+  simp [checked, gen_needsDupCheck, this, hu, hc]
+
 /-- every primary key index, the `key()` index of an Output and every unique index with a
 non-empty value (that does not contain a key) is duplicate-checked -/
 theorem checked_cases (x : IxIn) :
     (x.primary = true → checked false x = true) ∧ (x.emptyKey = true → checked false x = true) ∧
-    (x.modeU = true → x.containsKey = false → x.uniqueEmpty = false → checked false x = true) ∧
+    (x.modeU = true → x.containsKey = false → Gsu.Gen.Check.uniqueIndexEmpty x.fieldsEmpty = false →
+      checked false x = true) ∧
     (x.changed = true → x.primary = true → checked true x = true) ∧
-    (x.changed = true → x.modeU = true → x.containsKey = false → x.uniqueEmpty = false →
-      checked true x = true) := by
+    (x.changed = true → x.modeU = true → x.containsKey = false →
+      Gsu.Gen.Check.uniqueIndexEmpty x.fieldsEmpty = false → checked true x = true) := by
   simp only [checked, gen_needsDupCheck]
   refine ⟨?_, ?_, ?_, ?_, ?_⟩ <;> intros <;> simp_all
 
@@ -72,15 +94,20 @@ theorem unique_inv_partial (ops : List Op) (A B : Tran)
 
 -- key(k) + unique(a): inserting a row with a non-empty `a` checks both indexes
 example : dupChecks false 0
-    [{ emptyKey := false, primary := true, modeU := false, containsKey := true, uniqueEmpty := false,
+    [{ emptyKey := false, primary := true, modeU := false, containsKey := true, fieldsEmpty := [false],
        changed := true, present := false, key := [97] },
-     { emptyKey := false, primary := false, modeU := true, containsKey := false, uniqueEmpty := false,
+     { emptyKey := false, primary := false, modeU := true, containsKey := false, fieldsEmpty := [false],
        changed := true, present := true, key := [98] }] = ([(0, [97], [97]), (1, [98], [98])], false) := by
   decide
 -- key(): the read is ["",""]
 example : dupChecks false 0
-    [{ emptyKey := true, primary := true, modeU := false, containsKey := true, uniqueEmpty := true,
+    [{ emptyKey := true, primary := true, modeU := false, containsKey := true, fieldsEmpty := [],
        changed := true, present := true, key := [] }] = ([(0, [], [])], false) := by decide
+-- composite unique(a,b) with the partly empty value ("", x): checked, and a duplicate is refused
+example : dupChecks false 0
+    [{ emptyKey := false, primary := false, modeU := true, containsKey := false, fieldsEmpty := [true, false],
+       changed := true, present := true, key := [0, 0, 120] }] = ([(0, [0, 0, 120], [0, 0, 120])], false) := by
+  decide
 -- two writers of the same key: the second is aborted by the first one's dup-check read
 example : ((run {} [.start, .start, .read 3 0 0 [97] [97] [] [], .output 3 0 [[97]] [] [],
     .read 5 0 0 [97] [97] [] [], .output 5 0 [[97]] [] []]).trans.map (·.start)) = [3] := by decide
